@@ -142,6 +142,8 @@ func c07random(rng *core.Rng, pfx string, maxLen int) []xMsg {
 			}
 			if rng.Intn(5) == 0 {
 				m.Params[1] = []byte(strings.Repeat(fmt.Sprintf("big%d.", i), 700+rng.Intn(600))) // a Bind of 4-9 KiB
+			} else if rng.Intn(3) == 0 {
+				m.Params[1] = []byte(core.Pick(rng, []string{"2024-02-29 10:00:00", "2024-02-29", "1999-12-31 23:59:59.5", "2024-02-29 10:00"})) // what a handler may want to complete
 			}
 			h = append(h, m)
 			if defS[name] {
